@@ -33,6 +33,7 @@ type SFile struct {
 	Owner string // test name
 	K     int
 	Dirty bool
+	API   string // entry point that wrote the current content
 }
 
 // Disk is the abstract disk.
@@ -243,7 +244,7 @@ func (lf *Life) Apply(d *Disk, ex *Expect, parallel bool) {
 	switch ex.Outcome {
 	case Added:
 		if scen.Standalone(ex.Call.API) {
-			d.Solo[ex.File] = &SFile{Text: ex.CT.Text, Owner: ex.Test, K: ex.K}
+			d.Solo[ex.File] = &SFile{Text: ex.CT.Text, Owner: ex.Test, K: ex.K, API: ex.Call.API}
 			return
 		}
 		f := d.Multi[ex.File]
@@ -258,6 +259,7 @@ func (lf *Life) Apply(d *Disk, ex *Expect, parallel bool) {
 	case Updated:
 		if scen.Standalone(ex.Call.API) {
 			d.Solo[ex.File].Text = ex.CT.Text
+			d.Solo[ex.File].API = ex.Call.API
 			return
 		}
 		f, i := d.find(ex.File, ex.Test, ex.K)
